@@ -17,7 +17,7 @@ from . import common
 
 ID = "C04"
 LEVEL = "exploration"
-KNOBS = {"hows": ["call"], "p_attempt_timeout": 0.25, "p_aw_value": 0.3, "p_result": 0.8, "p_decisions": 0.5, "p_handler": 0.55, "p_abort": 0.12, "p_budget": 0.3,
+KNOBS = {"hows": ["call"], "p_frozen_exc": 0.12, "p_attempt_timeout": 0.25, "p_aw_value": 0.3, "p_result": 0.8, "p_decisions": 0.5, "p_handler": 0.55, "p_abort": 0.12, "p_budget": 0.3,
          "p_generous": 0.5, "p_ok": 0.15, "p_retryable": 0.8, "p_per_class": 0.5}
 RULE = ("seeded swarm over call-mode entry points (Retry/Policy/RetryPolicy, contexts, decorator, from_config; sync+async) "
         "with mixed exception/result histories so that every stop reason is reached with both causes, plus DEFER/ABORT; "
